@@ -427,7 +427,7 @@ def coq_crosscheck(ctx, sent):
     pools = {"span": [], "flip": [], "flipall": []}
     for line, o in sent:
         t = line.split()
-        if "error" not in o and (t[0] != "span" or int(t[2]) <= XCHECK_MAX_V):
+        if "error" not in o and (int(t[2]) <= XCHECK_MAX_V if t[0] == "span" else len(t) <= 3000):      # flip lines: E + F tokens
             pools[t[0]].append((t, o))
     quota = {"span": 6 if quick else 50, "flip": 6 if quick else 40, "flipall": 4 if quick else 30}
     nl, onl = X.natlist, lambda xs: X.lst(X.onat, xs)
